@@ -279,7 +279,12 @@ func (p *phaser) alignAgainstRefsAA(seq Sequence, orfsaa []Sequence) (ph PhasedS
 				ph = PhasedSequence{Err: fmt.Errorf("error while translating %s : %v", seq.Name(), err)}
 				return
 			}
-			aligner = NewPwAligner(orfaa, seqaa, ALIGN_ALGO_ATG)
+			pwa := NewPwAligner(orfaa, seqaa, ALIGN_ALGO_ATG)
+			// Both sequences are amino acids here, even when all their letters
+			// are also IUPAC nucleotide codes (alphabet detection then says BOTH)
+			pwa.submatrix = blosum62_subst_matrix
+			pwa.chartopos = prot_to_matrix_pos
+			aligner = pwa
 			aligner.SetGapOpenScore(p.gapopen)
 			aligner.SetGapExtendScore(p.gapextend)
 			if p.changedscores {
